@@ -9,6 +9,19 @@ equals its deep copy taken before the call; from_json agrees.
 """
 import json, copy
 from props.core_gen import Gen, systematic_types, type_stats, type_depth
+import re
+CANON = re.compile(r'^[a-z]{2,}[0-9]*(_[a-z]{2,}[0-9]*)*$')
+
+
+def all_canonical(ty):
+    ok = True
+    if ty['t'] == 'data':
+        ok = all(CANON.match(f['name']) for f in ty['fields'])
+    subs = [ty[k] for k in ('e', 'kt', 'vt') if k in ty] + list(ty.get('es', []))
+    subs += [f['ty'] if isinstance(f, dict) else f[1] for f in ty.get('fields', [])]
+    subs += [ft for _, ft in ty.get('req', []) + ty.get('opt', [])]
+    return ok and all(all_canonical(x) for x in subs)
+
 
 META = {
     'id': 'C05',
@@ -305,12 +318,13 @@ def make_cases(ctx):
         if '"base"' in json.dumps(c['root']):
             c['pre_load_bases'] = rh.random() < 0.6      # history x inheritance: base classes loaded alone first
         c.setdefault('n_sys', 12 if ctx.tier == 'quick' else 16)
+        c['exact_keys'] = not all_canonical(c['root'])
         c['load_first'] = rh.random() < 0.5       # history: first load before / after the first dump of the classes
     return cases
 
 
 def strip(c, extra=None):
-    d = {k: c[k] for k in ('root', 'value', 'seed', 'n_mut', 'n_sys', 'extra_docs', 'load_first', 'pre_load_bases') if k in c}
+    d = {k: c[k] for k in ('root', 'value', 'seed', 'n_mut', 'n_sys', 'extra_docs', 'load_first', 'pre_load_bases', 'exact_keys') if k in c}
     if extra is not None:
         d['extra_docs'] = extra
         d['n_mut'] = 0
